@@ -34,6 +34,44 @@ type limitRoles struct {
 	sleeps []*ssa.Call
 }
 
+// optsUnmodified: the constructor stores the caller's Opts (in particular the Limit) as given.
+func optsUnmodified(c *Ctx, lr *limitRoles, rule string) {
+	p := lr.p
+	for _, ctor := range lr.d.Ctors {
+		found := false
+		for _, b := range ctor.Blocks {
+			for _, in := range b.Instrs {
+				st, ok := fieldStore(in, "opts")
+				if !ok || namedOrigin(st.Addr.(*ssa.FieldAddr).X.Type()) != lr.d.Named {
+					continue
+				}
+				found = true
+				s := p.Sym(st.Val)
+				okPlain := s.Op == "param"
+				c.R.Check(okPlain, rule, p.FnKey(ctor)+"#opts", p.InstrPos(in), "options stored as given", "the constructor stores modified options ("+s.String()+"): the discipline then runs at a different rate than the one configured")
+			}
+		}
+		if !found {
+			c.R.Fail(rule, p.FnKey(ctor)+"#opts", p.Pos(ctor.Pos()), "UNDECIDED: the constructor does not store the options")
+		}
+	}
+	// and nobody writes them later
+	for _, fn := range p.Funcs() {
+		if rel, _ := p.Rel(fn); rel != "limit" {
+			continue
+		}
+		for _, b := range fn.Blocks {
+			for _, in := range b.Instrs {
+				if st, ok := in.(*ssa.Store); ok {
+					if _, nt, path, okp := fieldPathOf(st.Addr); okp && nt != nil && nt.Origin() == lr.d.Named && len(path) > 1 && path[0] == "opts" {
+						c.R.Fail(rule, p.FnKey(fn)+"#opts-write", p.InstrPos(in), "the stored options are modified ("+strings.Join(path, ".")+")")
+					}
+				}
+			}
+		}
+	}
+}
+
 func resolveLimit(c *Ctx, rule string) *limitRoles {
 	p := c.V2
 	d := p.Disc("limit.Discipline")
@@ -216,6 +254,8 @@ func runC12(c *Ctx) {
 	}
 	r.Check(len(inBatch) == 0, "Q3", p.FnKey(lr.batch)+"#no-sleep-in-batch", p.Pos(lr.batch.Pos()), "no Sleep reachable from the batch function", strings.Join(inBatch, "; "))
 	limitSleepShape(c, lr, "Q4", true)
+	r.Doc("Q5", "the rate in force is the configured one: the constructor stores the options unmodified", 1)
+	optsUnmodified(c, lr, "Q5")
 }
 
 // resultSyms: the symbolic values a product function may return as result idx.
@@ -554,6 +594,8 @@ func runC04(c *Ctx) {
 			}
 		}
 	}
+	r.Doc("L5", "the rate in force is the configured one: the constructor stores the options unmodified", 1)
+	optsUnmodified(c, lr, "L5")
 	r.Check(okCap, "L4", p.FnKey(lr.d.Ctors[0])+"#output-capacity", p.Pos(lr.d.Ctors[0].Pos()), what, "the output channel is made with "+what+", more than 1+cap(Input): while the consumer stalls the discipline keeps filling it at the limited rate and the consumer then receives the whole backlog at once, far above Quantity*(floor(W/Interval)+2) per window")
 }
 
